@@ -28,9 +28,15 @@ def builder(op, frm, to):
             a = ca.SX.sym("a", 9)
             Y = G[to].from_Matrix(ca.reshape(a, 3, 3))
         elif op == "shadow":
+            # history on ONE element: it is converted, then switched to the non-shadow representative in place, then
+            # converted again -- every conversion, before and after, must give the same rotation
             a = ca.SX.sym("a", 3)
             Y = G["mrp"].elem(a)
+            before = [ca.densify(Y.to_Matrix()), ca.densify(G["dcm"].from_Mrp(Y).to_Matrix()), ca.densify(G["quat"].from_Mrp(Y).to_Matrix())]
             G["mrp"].shadow_if_necessary(Y)
+            after = [ca.densify(G["dcm"].from_Mrp(Y).to_Matrix()), ca.densify(G["quat"].from_Mrp(Y).to_Matrix()),
+                     ca.densify(G["euler"].from_Mrp(Y).to_Matrix())]
+            return ca.Function("f", [a], [ca.densify(Y.to_Matrix()), Y.param] + before + after)
         return ca.Function("f", [a], [ca.densify(Y.to_Matrix()), Y.param])
     return mk
 
@@ -65,7 +71,8 @@ def replay_group(run, cache, key, tvs):
                        2 * math.atan2(tv["zyx"][2][1], tv["zyx"][2][0])] for tv in tvs]).T
     else:
         A = np.array([rm_to_np(tv["exp"]).flatten(order="F") for tv in tvs]).T
-    M, P = batch_call(f, [A])
+    outs_all = batch_call(f, [A])
+    M, P = outs_all[0], outs_all[1]
     run.count("evaluations", len(tvs))
     E = np.array([rm_to_np(tv["exp"]).flatten(order="F") for tv in tvs]).T
     with np.errstate(invalid="ignore"):
@@ -82,12 +89,34 @@ def replay_group(run, cache, key, tvs):
                 run.err(float(d[k]))
         if not (vres[k] <= 1e-9):
             run.violation(f"{frm}->{to}/{op}/valid/{cell}", "result is not a valid representative (unit quaternion / |mrp|<=1 / orthonormal det+1 / pitch range)", data)
+    if op == "shadow":
+        names = ["mrp.to_Matrix(before)", "dcm.from_Mrp(before)", "quat.from_Mrp(before)", "dcm.from_Mrp(after)", "quat.from_Mrp(after)", "euler.from_Mrp(after)"]
+        for j, nm in enumerate(names):
+            with np.errstate(invalid="ignore"):
+                dj = np.max(np.abs(outs_all[2 + j] - E), axis=0)
+            for k, tv in enumerate(tvs):
+                tolj = BAND_TOL if (nm.startswith("euler") and tv["cell"] in ("pole", "band")) else TOL
+                if not (dj[k] <= tolj):
+                    run.violation(f"mrp/shadow_history/{nm}/{tv['cell']}", "an MRP element converted, switched to its non-shadow representative in place and "
+                                  "converted again does not keep its rotation in every conversion", {"tv": tv, "param_in": A[:, k].tolist(), "err": float(dj[k])})
 
 
 def main():
     tier = sys.argv[1] if len(sys.argv) > 1 else "quick"
     run = Run(PID, tier)
     cache = FnCache()
+    from harness.lie import prelude as _prelude
+    _prelude(run, report=("convert", "matrix"))
+    # the opposite order of first uses (B321 before the user-built Euler groups) in a process of its own
+    import subprocess, os
+    pr = subprocess.run([sys.executable, "-m", "harness.lie", "b321_first"], capture_output=True, text=True, env=dict(os.environ), cwd="/verif")
+    try:
+        for fam, key, what, data in json.loads(pr.stdout.strip().splitlines()[-1]):
+            if fam in ("convert", "matrix"):
+                run.violation(f"prelude/b321_first/{key}", what, data)
+        run.count("prelude_second_process")
+    except Exception as ex:     # noqa
+        raise MachineryError(f"second-process prelude failed: {ex}: {pr.stderr[-400:]}")
     if "--replay" in sys.argv:
         d = json.load(open(sys.argv[sys.argv.index("--replay") + 1]))
         tv = d["data"]["tv"]
